@@ -20,6 +20,7 @@
 #include <fcppt/either/object.hpp>
 #include <fcppt/optional/object.hpp>
 #include <fcppt/options/active_value.hpp>
+#include <fcppt/options/apply.hpp>
 #include <fcppt/options/default_value.hpp>
 #include <fcppt/options/exception.hpp>
 #include <fcppt/options/flag.hpp>
@@ -60,9 +61,11 @@ using namespace c05;
 namespace
 {
 FCPPT_RECORD_MAKE_LABEL(val_label);
+FCPPT_RECORD_MAKE_LABEL(val2_label);
 using flag_t = fcppt::options::flag<val_label, tracked>;
 using option_t = fcppt::options::option<val_label, tracked>;
 using many_t = fcppt::options::many<option_t>;
+using option2_t = fcppt::options::option<val2_label, tracked>;
 using opt = fcppt::optional::object<tracked>;
 
 fcppt::options::optional_short_name short_name(bool present, char const *n)
@@ -89,6 +92,18 @@ void expect_parse(Ctx &cx, Parser const &p, std::vector<std::string> const &a, s
     return;
   }
   cx.result_snap(snap(fcppt::record::get<val_label>(res.get_success_unsafe())), expected, true, what);
+}
+
+template <typename Parser>
+void expect_parse2(Ctx &cx, Parser const &p, std::vector<std::string> const &a, std::vector<int> const &expected, char const *what)
+{
+  auto const res = fcppt::options::parse(p, args(a));
+  if (!res.has_success())
+  {
+    if (!expected.empty()) fail(cx.key("parse-failed"), cx.where() + "parsing (" + what + ") failed");
+    return;
+  }
+  cx.result_snap(snap(fcppt::record::get<val2_label>(res.get_success_unsafe())), expected, true, what);
 }
 
 Family const &options_family()
@@ -161,6 +176,47 @@ Family const &options_family()
         expect_parse(cx, inner, {}, has_default ? std::vector<int>{0} : std::vector<int>{}, "default result of the lvalue parser after make_many");
       cx.elements += 2;
       expect_parse(cx, parser, {"--opt", "3", "--opt", "4"}, {extract_base + 3, extract_base + 4}, "collected values");
+    }));
+    // ---- apply (the product of several parsers): the first parser enters as an rvalue, the last one
+    // as an rvalue, an lvalue or a const lvalue (the last position is where apply accepts an lvalue
+    // parser). An lvalue parser is copied and must stay usable afterwards: same names, same default.
+    r.push_back(entry1("options::apply", 1, any_cat{}, [](Ctx &cx, int, auto c) {
+      using C = decltype(c);
+      option_t first{short_name(false, "o"), long_name("opt"), fcppt::options::make_default_value(opt{tracked(0)}), fcppt::options::optional_help_text{}};
+      option2_t last{short_name(true, "p"), long_name("last"), fcppt::options::make_default_value(opt{tracked(1)}), fcppt::options::optional_help_text{}};
+      cx.rvalue_origins.insert(0);
+      (C::id == 0 ? cx.rvalue_origins : cx.lvalue_origins).insert(1);
+      cx.elements += 2;
+      cx.klass_override(std::string(cat_name(C::id)) + "-last-parser");
+      cx.begin();
+      auto const parser = fcppt::options::apply(std::move(first), pass<C>(last));
+      cx.phase("parse");
+      if constexpr (C::id != 0)
+      {
+        // the lvalue parser after the call: default value, long and short name still there
+        expect_parse2(cx, last, {}, {1}, "default result of the lvalue parser after apply");
+        ++cx.elements;
+        expect_parse2(cx, last, {"--last", "4"}, {extract_base + 4}, "lvalue parser after apply, long name");
+        ++cx.elements;
+        expect_parse2(cx, last, {"-p", "5"}, {extract_base + 5}, "lvalue parser after apply, short name");
+      }
+      auto const res = fcppt::options::parse(parser, args({}));
+      if (!res.has_success()) fail(cx.key("parse-failed"), cx.where() + "parsing [] with the product of two options with defaults failed");
+      else
+      {
+        Snap got = snap(fcppt::record::get<val_label>(res.get_success_unsafe()));
+        for (ElemSnap const &e : snap(fcppt::record::get<val2_label>(res.get_success_unsafe()))) got.push_back(e);
+        cx.result_snap(got, {0, 1}, true, "defaults of the product");
+      }
+      cx.elements += 2;
+      auto const res2 = fcppt::options::parse(parser, args({"--last", "7", "--opt", "6"}));
+      if (!res2.has_success()) fail(cx.key("parse-failed"), cx.where() + "parsing [--last 7 --opt 6] with the product failed");
+      else
+      {
+        Snap got = snap(fcppt::record::get<val_label>(res2.get_success_unsafe()));
+        for (ElemSnap const &e : snap(fcppt::record::get<val2_label>(res2.get_success_unsafe()))) got.push_back(e);
+        cx.result_snap(got, {extract_base + 6, extract_base + 7}, true, "extracted values of the product");
+      }
     }));
     return r;
   }();
